@@ -78,7 +78,7 @@ def step (st : St) (pre post : List String) : St × Verdict :=
     match field post "post" >>= parseItems, field post "store" >>= parseItems with
     | some c, some s =>
       if coherentB c s then (st, .ok)
-      else if role = "B" && st.kind = "appquery" then
+      else if role = "B" && (st.kind = "appquery" || st.kind = "simulate") then
         if st.incoherent then (st, .ok)
         else ({ st with incoherent := true }, .propfail "appcache-incoherent" s!"after block {h}: cache {renderItems c} vs working store {renderItems s}")
       else (st, .propfail "appcache-incoherent-by-block" s!"twin {role} ({st.kind}) after block {h}: cache {renderItems c} vs working store {renderItems s}")
